@@ -756,6 +756,19 @@ func (p *peer) answerAndReceive(block []Proposal) (bool, error) {
 			return true, err
 		}
 	}
+	if p.plan.Comments >= 2 {
+		// pending-message notes may come at any time, also in front of the answer, and a note in a shape the station does not
+		// know (no subject: four fields; no fields at all) is a comment like any other
+		for _, pm := range []string{
+			fmt.Sprintf(";PM: %s PMNOTE000001 2345 %s", p.plan.TheirCall, p.plan.MyCall),
+			fmt.Sprintf(";PM: %s PMNOTE000002 777 %s a subject of several words", p.plan.TheirCall, p.plan.MyCall),
+			";PM:",
+		} {
+			if err := p.line("answer", "pm", pm); err != nil {
+				return true, err
+			}
+		}
+	}
 	p.res.AnswersSent = append(p.res.AnswersSent, fs.String())
 	if err := p.line("answer", "fs", fs.String()); err != nil {
 		return true, err
